@@ -265,6 +265,26 @@ def _const_str_list(fn, name, rel):
     return [e.value for e in asg[0].value.elts]
 
 
+def _pop_helper_ok(fn, loop, lists):
+    """The loop `for key in <p>: self._selection.pop(key, None)` is the whole body of a local helper `def h(<p>)` of
+    select() that is only ever CALLED, each time with one of the literal selector lists (a behaviour-preserving
+    refactoring of the three inline loops, e.g. /verif/benign/C02-1)."""
+    for h in ast.walk(fn):
+        if not (isinstance(h, ast.FunctionDef) and h is not fn):
+            continue
+        body = [s for s in h.body if not (isinstance(s, ast.Expr) and isinstance(s.value, ast.Constant))]
+        a = h.args
+        if len(body) != 1 or body[0] is not loop or [x.arg for x in a.args] != [_norm(loop.iter)] or a.defaults \
+                or a.vararg or a.kwarg or a.kwonlyargs or a.posonlyargs or h.decorator_list:
+            continue
+        uses = [n for n in ast.walk(fn) if isinstance(n, ast.Name) and n.id == h.name]
+        calls = [n for n in ast.walk(fn) if isinstance(n, ast.Call) and isinstance(n.func, ast.Name) and n.func.id == h.name]
+        if len(uses) == len(calls) and calls and all(len(c.args) == 1 and not c.keywords and _norm(c.args[0]) in lists
+                                                     for c in calls):
+            return True
+    return False
+
+
 def item_ds_select_keeps(repo, out):
     """katdal/dataset.py DataSet.select: the keyword arguments are merged into self._selection (which only ever
     loses time / frequency / product selectors), the loop over self._selection assigns `self._weights_keep = v` for
@@ -289,7 +309,8 @@ def item_ds_select_keeps(repo, out):
     for n in ast.walk(fn):
         if isinstance(n, ast.For) and any(isinstance(m, ast.Call) and _norm(m) == 'self._selection.pop(key,None)'
                                           for m in ast.walk(n)):
-            if _norm(n.target) != 'key' or _norm(n.iter) not in lists or len(n.body) != 1:
+            if _norm(n.target) != 'key' or len(n.body) != 1 \
+                    or not (_norm(n.iter) in lists or _pop_helper_ok(fn, n, lists)):
                 raise TranslateError('%s:select: self._selection.pop outside a loop over a selector list' % rel)
     for n in ast.walk(fn):
         if isinstance(n, (ast.Assign, ast.AugAssign, ast.Delete)) and 'self._selection' in _norm(n) \
